@@ -139,13 +139,14 @@ def gen_small(rng):
 def gen_big(rng):
     nk = 2 + rng.below(4)
     nex = 1 + rng.below(3)
+    two = rng.chance(1, 3)        # a second futex drawing its nodes from the same deposit box
     coros, futs = [], 0
     for i in range(nk):
         ops = []
         for _ in range(1 + rng.below(3)):
             r = rng.below(20)
             if r < 9:
-                ops.append("w1t" if rng.chance(3, 4) else "w1")
+                ops.append(("u" if two and rng.chance(1, 2) else "w") + ("1t" if rng.chance(3, 4) else "1"))
             elif r < 11:
                 ops.append("w0" if rng.chance(1, 2) else "w0t")
             elif r < 13:
@@ -163,7 +164,7 @@ def gen_big(rng):
                     ops.append("c%s.-" % rng.choice(["i"] + [str(x) for x in range(nex)]))
         coros.append((rng.below(nex), ops))
     toks = [(i, j) for i, (_, ops) in enumerate(coros) for j, o in enumerate(ops)
-            if (o[0] == "w" and o.endswith("t")) or o[0] == "c"]
+            if (o[0] in "wu" and o.endswith("t")) or o[0] == "c"]
     nt = 2 + rng.below(2)
     threads = [[] for _ in range(nt)]
     for k in range(futs):
@@ -172,16 +173,17 @@ def gen_big(rng):
         t = rng.below(nt)
         pos = rng.below(len(threads[t]) + 1)
         r = rng.below(10)
+        fx = "X" if two and rng.chance(1, 2) else "W"
         if r < 3:
-            o = "W1"
+            o = fx + "1"
         elif r < 5:
-            o = "WA"
+            o = fx + "A"
         elif r < 9 and toks:
             o = "K%d.%d" % rng.choice(toks)
         else:
             o = "Y"
         threads[t].insert(pos, o)
-    ntok_first = len([1 for _, ops in coros if ops[0] in ("w1t",)])
+    ntok_first = len([1 for _, ops in coros if ops[0] in ("w1t", "u1t")])
     if rng.chance(1, 4):                                  # word change + wake racing with waiters that register
         t = rng.below(nt)
         pos = rng.below(len(threads[t]) + 1)
@@ -210,6 +212,12 @@ DIRECTED = [
     ("d.lostwake", "0:w1;1:w1;0:w1t", "Y,Y,Y,Y,V0,WA", 60),
     ("d.lostwake2", "0:w1,w1;1:w1", "Y,Y,Y,V0,WA|W1", 40),
     ("d.lostwake3", "0:w1t,w1;1:w1", "Q1,W1,Y,V0,WA", 40),
+    # cancel racing wake_all with several waiters queued, then a second round of waits (slot reuse) that is cancelled /
+    # woken again, on one futex and on two futexes sharing the deposit box; priority schedules (strategy 1) keep a
+    # canceller parked between its take and the futex mutex long enough
+    ("d.cancelwa", "0:w1t,w1t;1:w1t,w1t;0:w1t,w1t;1:w1t,w1t", "Q4,K0.0,K1.0|Q4,WA|Q4,K2.0,K3.0", 150, 1),
+    ("d.cancelwa2", "0:w1t,u1t;1:w1t,u1t;0:w1t,u1t;1:w1t,u1t", "Q4,K0.0,K1.0,X1|Q4,WA,XA|Q4,K2.0,K3.0,X1", 75, 1),
+    ("d.cancelwa3", "0:w1t,w1t,w1;1:w1t,w1t,w1;0:w1t,w1", "Q3,K0.0,K1.0,Q5,K0.1,W1|Q3,WA,Y,W1,WA|Q3,K2.0,Q4,K1.1", 50, 1),
     ("d.race1", "0:w1t", "Q1,K0.0|Q1,W1", 30),
     ("d.race2", "0:w1t;1:w1t", "Q2,K0.0,W1|Q2,WA,K1.0", 40),
     ("d.history", "0:w1t,w1t,w1t", "Q1,W1,Q2,K0.1,Q3,WA|K0.0,K0.2", 30),
@@ -228,7 +236,7 @@ DIRECTED_V = [
     ("history", "0:w1t,w1t,w1t", "Q1,W1,Q2,K0.1,Q3,WA|K0.0,K0.2", 30),
 ]
 SMALL_DIRECTED = {"d.lostwake", "d.lostwake2", "d.lostwake3", "d.mismatch", "d.w1cancel", "d.wareuse", "d.race1", "d.race2", "d.history"}
-MON = ["once", "acct", "exec", "value", "nosusp", "w1", "wall", "leak", "stranded", "cbafter", "lostwake"]
+MON = ["once", "acct", "exec", "value", "nosusp", "w1", "wall", "leak", "stranded", "cbafter", "lostwake", "listwf"]
 WHAT = {"once": "a co_await returned twice / a coroutine was resumed while running / a token cancelled twice",
         "acct": "resumed futex suspensions != wake_one + wake_all results + successful cancels",
         "exec": "a continuation ran outside the executor its coroutine is bound to",
@@ -240,6 +248,8 @@ WHAT = {"once": "a co_await returned twice / a coroutine was resumed while runni
         "stranded": "a suspended coroutine was never resumed although wake_all ran after it was queued",
         "lostwake": "a coroutine is suspended on a futex whose word differs from its expected value although a wake_all "
                     "began after the last store to the word (compare and enqueue of add_awaiter not atomic: lost wakeup)",
+        "listwf": "a futex waiter list is not a well-formed doubly linked list of waiters of that futex when nothing is in "
+                  "flight (prev of a linked node wrong / cycle / node of another futex), or is not empty at the end",
         "cbafter": "await_suspend fetched the on_suspend callback from an awaitable the continuation had already destroyed"}
 
 
@@ -288,7 +298,11 @@ def main(argv):
         fixed_sched = (r["seed"], r["strategy"], r.get("workers", 2))
     else:
         fixed_sched = None
-        for name, cs, ts, n in DIRECTED:
+        forced = {}
+        for d in DIRECTED:
+            name, cs, ts, n = d[:4]
+            if len(d) > 4:
+                forced[name] = d[4]
             progs.append((name, cs, ts, name in SMALL_DIRECTED, n * (5 if thorough else 2)))
         n_small, n_big = (36, 120) if not thorough else (90, 500)
         seen = set()
@@ -309,6 +323,8 @@ def main(argv):
                 seed, strat, nw = fixed_sched
             else:
                 seed, strat, nw = rng.below(1 << 31), [0, 3, 1, 0][si % 4], 2 + (si % 2)
+                if pid in forced:
+                    strat, nw = forced[pid], 2 + (si % 3)
             cid = "%s.%d" % (pid, si)
             lines.append("%s %d %d %d 1 %s %s" % (cid, seed, strat, nw, cs, ts))
             meta[cid] = (pid, cs, ts, small, seed, strat, nw)
@@ -363,7 +379,8 @@ def main(argv):
             if int(f.get("bad", "0")) > 0:
                 prog = [p for p in progs if p[0] == pid][0]
                 chk.violate("model-bad", "the model of the regenerated code reaches a state in which a coroutine that is not "
-                            "suspended is resumed, or a node is queued while the word does not match (lost wakeup), for "
+                            "suspended is resumed, a node is queued while the word does not match (lost wakeup), or "
+                            "remove_awaiter writes link fields of a node that is not in the list, for "
                             "coroutines %s threads %s: %s" % (prog[1], prog[2], l[:200]),
                             {"level": "model", "coroutines": prog[1], "threads": prog[2], "small": True, "seed": 1,
                              "strategy": 0, "workers": 2})
